@@ -106,6 +106,13 @@ pub fn gen_case(t: &mut Tape, feature_unimock: bool) -> Case {
     if let Some(m) = mockall_opt {
         opts.push(if m && t.flip() { "mockall".into() } else { format!("mockall = {m}") });
     }
+    // options that must NOT influence which types get the impl
+    if t.chance(1, 3) {
+        opts.push("?Send".into());
+    }
+    if t.chance(1, 6) {
+        opts.push("export = false".into());
+    }
     let perm = t.permutation(opts.len());
     let opts: Vec<String> = perm.into_iter().map(|i| opts[i].clone()).collect();
     let attr = format!("pub TheTrait{}", opts.iter().map(|o| format!(", {o}")).collect::<String>());
@@ -223,7 +230,7 @@ pub const TAPE_LEN: usize = 64;
 
 pub fn run(ctx: &mut Ctx) {
     ctx.rule = "cases = entraited fns / modules of 1..4 fns declaring 0..4 dependency bounds from {B0..B3, Clone, G<i32>, G<u8>} inline, in a where clause, as `impl A + B`, split, or spread over \
-                the fns of a module, by reference or by value, x mock settings {none, mock_api, unimock[=b], mockall[=b]} x both cargo feature settings; each program probes \
+                the fns of a module, by reference or by value, x mock settings {none, mock_api, unimock[=b], mockall[=b]} x unrelated options {?Send, export = false} x both cargo feature settings; each program probes \
                 `X: TheTrait` and `Impl<X>: TheTrait` at run time for a family of types (full, one per missing bound, all-pool, !Sync, Sync+!Send) and compares with the spec; \
                 non-trivial = >=2 declared bounds, a split declaration, or module fns with different bounds (every case has probes expected true and probes expected false); distinct = distinct program text"
         .into();
